@@ -33,6 +33,10 @@ pub mod trackers;
 ///
 pub mod utils;
 
+/// Verification hooks; compiled only with the `similari_verif` feature.
+#[cfg(feature = "similari_verif")]
+pub mod verif;
+
 pub use track::store;
 pub use track::voting;
 
